@@ -292,6 +292,16 @@ func (reader *CollectionReader) StartRead(ctx context.Context) {
 					zap.Int64("collection_id", info.CollectionId))
 				return true
 			}
+			if _, ok := reader.replicateCollectionMap.Load(info.CollectionId); !ok {
+				// the collection is created after getting the collection list, it will be started by the watch event after
+				// `StartWatch`, and the partition, which must be created after the collection, will be added by the watch event too.
+				// if add it here, it will wait the collection handler which can't be existed before `StartWatch`
+				readerLog.Info("skip to add partition because the collection isn't in the collection list",
+					zap.String("name", info.PartitionName),
+					zap.Int64("partition_id", info.PartitionID),
+					zap.Int64("collection_id", info.CollectionId))
+				return true
+			}
 			var collectionName string
 			retryErr := retry.Do(ctx, func() error {
 				collectionName = reader.metaOp.GetCollectionNameByID(ctx, info.CollectionId)
